@@ -77,7 +77,7 @@ class C13(F.Spec):
             if a in ("save", "savefault", "savecrash"):
                 ops.append("set %d %s" % (rng.choice([38, 103, 359, 500, 700]), rb(rng, rng.choice([1, 8, 40])).hex()))
                 if a == "savefault":
-                    ops.append("fault %d %d" % (rng.choice([1, 2]), rng.choice([0, 1])))
+                    ops.append("fault %d %d" % (rng.choice([1, 2]), rng.choice([0, 1, 3, 4])))     # error / timeout, without / after effect
                 elif a == "savecrash":
                     ops.append("crash %d %d" % (rng.choice([1, 2]), rng.choice([0, 6, 37, 38, 60, 500, 955, 956])))
                 ops += ["showrec", "sector", "save", "sector"]
@@ -87,7 +87,7 @@ class C13(F.Spec):
                 ops += ["showrec", "factory", "showrec", "sector"]
             else:
                 if rng.random() < 0.3:
-                    ops.append("fault %d %d" % (rng.choice([1, 2]), rng.choice([0, 1])))
+                    ops.append("fault %d %d" % (rng.choice([1, 2]), rng.choice([0, 1, 3, 4])))     # error / timeout, without / after effect
                 ops += ["setstate %d %s" % (rng.choice([0, 8, 40]), rb(rng, 8).hex()), "showstate", "savestate"]
         ops += ["sector", "init", "showrec", "showstate", "show"]
         return F.Case("gen%d-%s" % (i, kind), ops, {"tags": ["sector:" + kind], "kind": kind})
@@ -112,8 +112,9 @@ class C13(F.Spec):
             elif t[0] == "save":
                 ret = [x for x in g if x.startswith("SAVERET")]
                 if sector and rec and ret and fault != ("crash",):
-                    e = str(fault[1]) if fault and fault[0] == 1 else "ok"
-                    w = str(fault[1]) if fault and fault[0] == 2 else "ok"
+                    code = {0: "0", 1: "1", 3: "0", 4: "1"}        # a timeout is a failure like an error
+                    e = code[fault[1]] if fault and fault[0] == 1 else "ok"
+                    w = code[fault[1]] if fault and fault[0] == 2 else "ok"
                     ops.append("save %s %s %s %s" % (sector, rec, e, w))
                     exp.append([ret[0]])
                 fault = None
@@ -277,7 +278,7 @@ class C13(F.Spec):
             old = bytes(rng.choice(b"abcdefghijklmnop") for _ in range(rng.randint(1, 20)))
             new = bytes(rng.choice(b"QRSTUVWXYZ") for _ in range(rng.randint(1, 20)))
             svr = bytes(rng.choice(b"xyz.") for _ in range(rng.randint(1, 30)))
-            fault = rng.choice([None, (1, 0), (1, 1), (2, 0), (2, 1), (3, 0)])
+            fault = rng.choice([None, (1, 0), (1, 1), (2, 0), (2, 1), (3, 0), (1, 3), (2, 3), (2, 4)])
             first = b"POST / HTTP/1.1\r\n\r\nsid=" + old + b"&svr=old.example&eml=a%40b.c&pro=0&led=1"
             second = b"POST / HTTP/1.1\r\n\r\nsid=" + new + b"&svr=" + svr + b"&eml=c%40d.e&pro=0&led=0"
             ops = ["conn", "seg " + first.hex(), "conn", "show"]
